@@ -440,6 +440,9 @@ def monitor(q, secs, T, cfg):
             if want == "-":
                 continue
             if h != want:
+                if cross and f in ("eq", "ne"):
+                    bad.append(("cross-variant", f, "%s of a First and a Second ArcUnion = %s, must be %s whatever they hold" % (f, h, want)))
+                    continue
                 bad.append(("see-through", f, "%s on the handles = %s, on the held values = %s%s" % (
                     f, h, want, " (same-allocation licence: must be %s)" % want if licence and f in ("eq", "ne") else "")))
         XH, XV = secs.get("XH"), secs.get("XV")
@@ -541,6 +544,7 @@ DEMANDS = {
     "eq-hash": "C14_eq_hash: equal handles hash equally",
     "calls": "C14_see_through (scripted payload): a handle's operator consults exactly the payload operator(s) the value's operator consults",
     "borrow-key": "C14_borrow_key: an Arc<T> key is found by &T exactly as a T key would be",
+    "cross-variant": "C14_cross_variant_ne: ArcUnions holding different variants are never equal",
     "panic": "no observer may panic",
     "correspondence": "model M5 (Model/Cmp.lean) mirrors the source: same eleven observations on the same query",
 }
